@@ -4,6 +4,8 @@
 EXTENDS JID, Json
 
 CONSTANTS ParseLen,      \* Parse vectors: all strings over Core up to this length
+          SubLen,        \* ... and all strings over SubSyms up to this length
+
           PartLen        \* New vectors: all triples of parts up to this length over TripleSyms
 
 LongParts == {<<L1022>>, <<L1023>>, <<L1024>>, <<L1022, a>>, <<a, L1022>>, <<L1022, a, a>>, <<L1022, EA>>,
@@ -49,7 +51,8 @@ Pool == <<97, 65, 122, 48, 45, 46, 95, 126, 33, 39, 34, 38, 47, 58, 60, 62, 64, 
           183, 108, 12539, 173, 160, 12288, 5760, 128512, 65533, 888, 8364, 730, 8175, 7835, 1013, 8126,
           4348, 43868, 119137, 2364, 2325, 3953, 3954, 12441, 12363, 776, 97, 46>>
 
-ParseSet == StrsOf(Core, ParseLen) \cup LongStrs
+SubSyms == {a, UA, AT, SL, DOT, IDS, FW, CS, XN, SP}
+ParseSet == StrsOf(Core, ParseLen) \cup StrsOf(SubSyms, SubLen) \cup LongStrs
 ASSUME ndJsonSerialize("parse.ndjson", SetToSeq({PVec(s) : s \in ParseSet}))
 ASSUME ndJsonSerialize("new.ndjson", SetToSeq({NVec(t[1], t[2], t[3]) : t \in Triples}))
 ASSUME ndJsonSerialize("with.ndjson", SetToSeq({WVec(b, role, p) : b \in Bases, role \in {"l", "d", "r"}, p \in ReplParts}))
